@@ -35,6 +35,7 @@
 #include <dlfcn.h>
 #include <errno.h>
 #include <fcntl.h>
+#include <pthread.h>
 #include <signal.h>
 #include <stdarg.h>
 #include <stdint.h>
@@ -216,16 +217,61 @@ static void crash_now(long idx, const char *call, int fd, const char *path, long
 
 /* ---- S1: entropy ---------------------------------------------------------------------- */
 
+/* A program may compute in several threads (one per energy carrier, say). Each thread gets an entropy stream of its
+ * own, named by its place in the tree of thread creations (parent's name, index among the parent's children), so that
+ * the hash keys of every thread are decided by VERIF_ENTROPY and not by which thread asks first. The main thread
+ * keeps the stream it always had. */
+static __thread uint64_t t_name = 0;     /* 0: main thread */
+static __thread uint64_t t_children = 0; /* threads created by this one so far */
+static __thread uint64_t t_state = 0;
+static __thread int t_seeded = 0;
+static int (*real_pthread_create)(pthread_t *, const pthread_attr_t *, void *(*)(void *), void *) = NULL;
+
+struct tramp {
+    void *(*fn)(void *);
+    void *arg;
+    uint64_t name;
+};
+
+static void *trampoline(void *p) {
+    struct tramp t = *(struct tramp *)p;
+    free(p);
+    t_name = t.name;
+    return t.fn(t.arg);
+}
+
+int pthread_create(pthread_t *th, const pthread_attr_t *attr, void *(*fn)(void *), void *arg) {
+    if (!real_pthread_create) real_pthread_create = dlsym(RTLD_NEXT, "pthread_create");
+    struct tramp *t = malloc(sizeof *t);
+    if (!t) return real_pthread_create(th, attr, fn, arg);
+    uint64_t mixer = t_name * 0x9E3779B97F4A7C15ULL + (++t_children);
+    t->fn = fn;
+    t->arg = arg;
+    t->name = splitmix(&mixer) | 1; /* never 0 */
+    int r = real_pthread_create(th, attr, trampoline, t);
+    if (r != 0) free(t);
+    return r;
+}
+
 ssize_t getrandom(void *buf, size_t len, unsigned int flags) {
     init();
     if (!entropy_on) {
         if (real_getrandom) return real_getrandom(buf, len, flags);
         return syscall(SYS_getrandom, buf, len, flags);
     }
+    uint64_t *state = &entropy_state;
+    if (t_name != 0) {
+        if (!t_seeded) {
+            const char *e = getenv("VERIF_ENTROPY");
+            t_state = (e ? strtoull(e, NULL, 10) : 0) ^ 0xE17A0F5C3B2D9A41ULL ^ t_name;
+            t_seeded = 1;
+        }
+        state = &t_state;
+    }
     unsigned char *p = buf;
     size_t i = 0;
     while (i < len) {
-        uint64_t v = splitmix(&entropy_state);
+        uint64_t v = splitmix(state);
         for (int k = 0; k < 8 && i < len; k++, i++) p[i] = (unsigned char)(v >> (8 * k));
     }
     return (ssize_t)len;
